@@ -1043,7 +1043,11 @@ func (c *Conn) handleBdat(arg string) {
 	c.lineLimitReader.LineLimit = 0
 
 	chunk := io.LimitReader(c.text.R, int64(size))
-	_, err = io.Copy(c.bdatPipe, chunk)
+	copied, err := io.Copy(c.bdatPipe, chunk)
+	if err == nil && copied < int64(size) {
+		// The connection ended inside the chunk.
+		err = io.ErrUnexpectedEOF
+	}
 	if err != nil {
 		// Backend might return an error early using CloseWithError without consuming
 		// the whole chunk.
